@@ -181,6 +181,11 @@ class MetaMolecule(nx.Graph):
         self.clear()
         self.add_nodes_from(new_meta_graph.nodes(data=True))
         self.add_edges_from(new_meta_graph.edges)
+        # residues that are not relabelled keep the flags every residue
+        # gets when a meta molecule is created
+        for node in self.nodes:
+            self.nodes[node].setdefault("build", True)
+            self.nodes[node].setdefault("backmap", True)
 
     def split_residue(self, split_strings):
         """
